@@ -45,6 +45,11 @@ class FN:
     # region verification: start at the (top-level) loop with this ordinal; the statements before it are trusted
     # to establish `requires` over the locals listed in `types` (stated as an assumption)
     start_at_loop: Optional[int] = None
+    # an ASSUMED contract of a function outside the proved subset: used at call sites, never verified, and listed
+    # in the trusted base of every property that depends on it
+    assumed: bool = False
+    # parameter shapes to verify separately (e.g. list lengths): [(label, {param: shape description})]
+    variants: List[Tuple[str, Dict]] = field(default_factory=list)
     hints: List[str] = field(default_factory=list)   # proof hints: asserted (own obligation) then assumed
     # ghost snapshots taken right after an assignment to the named local: {local: {ghost: expr}}
     ghost_at_assign: Dict[str, Dict[str, str]] = field(default_factory=dict)
